@@ -505,7 +505,20 @@ def cond_atoms(cond, pol):
     """decompose a branch condition with polarity into (atom, polarity) where
     atom has no leading '!'; e.g. (!x, True) -> (x, False)"""
     c = strip_cast(cond)
-    while isinstance(c, dict) and c.get("k") == "u" and c.get("op") == "!":
-        c = strip_cast(c["x"])
-        pol = not pol
+    for _ in range(12):
+        if isinstance(c, dict) and c.get("k") == "u" and c.get("op") == "!":
+            c = strip_cast(c["x"])
+            pol = not pol
+            continue
+        if isinstance(c, dict) and c.get("k") == "b" and c.get("op") in ("||", "&&"):
+            # constant operand of a logical operator (ABSL_PREDICT_* expands to `false || (x)` / `true && (x)`)
+            neutral = "0" if c["op"] == "||" else "1"
+            l, r = strip_cast(c.get("l")), strip_cast(c.get("r"))
+            if isinstance(l, dict) and l.get("k") == "c" and str(l.get("v")) == neutral:
+                c = r
+                continue
+            if isinstance(r, dict) and r.get("k") == "c" and str(r.get("v")) == neutral:
+                c = l
+                continue
+        break
     return c, pol
